@@ -106,10 +106,18 @@ func (vm *VM) errIndexOutOfRange() runtimeError {
 
 // newPanic returns a new *PanicError with the given error message.
 func (vm *VM) newPanic(msg any) *PanicError {
+	// vm.pc is the address that follows the instruction that panicked. A
+	// failed type assertion has its position in the Panic instruction that
+	// follows the Assert instruction.
+	pc := vm.pc - 1
+	if vm.fn.Body[pc].Op == OpAssert {
+		pc++
+	}
+	info := vm.fn.InstructionInfo[pc]
 	return &PanicError{
 		message:  msg,
-		path:     vm.fn.InstructionInfo[vm.pc].Path,
-		position: vm.fn.InstructionInfo[vm.pc].Position,
+		path:     info.Path,
+		position: info.Position,
 	}
 }
 
